@@ -404,7 +404,7 @@ class IncrementalEncoder(codecs.IncrementalEncoder):
                 newinput = _fixencoding(input, str(encoding), final)
                 if newinput is None:  # @charset rule incomplete => Retry next time
                     self.buffer = input
-                    return ""
+                    return b""
                 input = newinput
             else:
                 # Use encoding from the @charset declaration
@@ -423,7 +423,7 @@ class IncrementalEncoder(codecs.IncrementalEncoder):
                 self.buffer = ""
             else:
                 self.buffer = input
-                return ""
+                return b""
         return self.encoder.encode(input, final)
 
     def reset(self):
@@ -481,7 +481,7 @@ class StreamWriter(codecs.StreamWriter):
                 newinput = _fixencoding(input, str(encoding), False)
                 if newinput is None:  # @charset rule incomplete => Retry next time
                     self.buffer = input
-                    return ("", 0)
+                    return (b"", 0)
                 input = newinput
             else:
                 # Use encoding from the @charset declaration
@@ -498,7 +498,7 @@ class StreamWriter(codecs.StreamWriter):
                 self.buffer = ""
             else:
                 self.buffer = input
-                return ("", 0)
+                return (b"", 0)
         return (self.streamwriter.encode(input, errors)[0], li)
 
     def _geterrors(self):
